@@ -6,7 +6,9 @@
 //!   c06 probe  <file.sy> [--nostd] [--lua|--start]
 //! Case (from TLC): {idx, id:{fam,a,b,n}, files:[{name,text}], req, must}.  `@Uhhhh@` in a text stands for the code
 //! point hhhh (TLC cannot carry CR / NUL / non-ASCII); it is substituted just before compiling.
-//! Trace record: {u, idx, id, files, req, ev:[{e,r,n,len,st,cls}], detail}
+//! A case with `expect` other than "-" is also RUN after it loaded: event run(r = done | error | step-limit | unsupported,
+//! len = bytes printed) and the record's `out` = everything the chunk printed, in placeholder form (else "-").
+//! Trace record: {u, idx, id, files, req, ev:[{e,r,n,len,st,cls}], out, detail}
 //!   events  start | ret(r=ok len=bytes / r=err n=errors len=bytes st=parse|compile) | render(n,len) | render_panic
 //!           | panic | load(r=ok / r=err cls=<class of the loader's refusal>) | finish
 //! Rust only renders, compiles, loads and records what happened; whether the event list is a behaviour of SyltLoad
@@ -52,6 +54,19 @@ fn subst(s: &str) -> String {
         rest = after;
     }
     out.push_str(rest);
+    out
+}
+
+/// the inverse of `subst` for observed output: printable ASCII, LF and TAB as they are, everything else `@Uhhhh@`
+fn unsubst(s: &str) -> String {
+    let mut out = String::with_capacity(s.len());
+    for c in s.chars() {
+        if c == '\n' || c == '\t' || (' '..='~').contains(&c) {
+            out.push(c);
+        } else {
+            out.push_str(&format!("@U{:04X}@", c as u32));
+        }
+    }
     out
 }
 
@@ -109,6 +124,14 @@ fn corrupt(lua: &str, stub: &str) -> String {
 
 /// events of one compilation + load; returns (events, detail)
 fn observe_result(res: CompileResult, stub: &str, pos: usize) -> (Vec<Value>, String) {
+    let (evs, detail, _) = observe_run(res, stub, pos, false);
+    (evs, detail)
+}
+
+/// events of one compilation + load (+ run, when the case carries a byte expectation and the chunk loaded);
+/// returns (events, detail, output in placeholder form or "-")
+fn observe_run(res: CompileResult, stub: &str, pos: usize, run: bool) -> (Vec<Value>, String, String) {
+    let mut out = "-".to_string();
     let every: usize = std::env::var("C06_STUB_EVERY").ok().and_then(|s| s.parse().ok()).unwrap_or(1).max(1);
     let stub = if (pos + 1) % every == 0 { stub } else { "" };
     let mut evs = vec![ev("start", "-", 0, 0, "-", "-")];
@@ -118,7 +141,28 @@ fn observe_result(res: CompileResult, stub: &str, pos: usize) -> (Vec<Value>, St
             evs.push(ev("ret", "ok", 0, lua.len(), "compile", "-"));
             let text = if stub.is_empty() { lua } else { corrupt(&lua, stub) };
             match vharness::luarun::load_only(&text) {
-                Ok(()) => evs.push(ev("load", "ok", 0, 0, "-", "-")),
+                Ok(()) => {
+                    evs.push(ev("load", "ok", 0, 0, "-", "-"));
+                    if run {
+                        // what the loaded chunk prints, byte for byte (lossy UTF-8), in placeholder form
+                        let status = match minilua::run_source(&text, &vharness::luarun::default_opts()) {
+                            Ok(r) => {
+                                out = unsubst(&r.output);
+                                match r.outcome {
+                                    minilua::Outcome::Done => "done",
+                                    minilua::Outcome::StepLimit => "step-limit",
+                                    minilua::Outcome::Unsupported(_) => "unsupported",
+                                    minilua::Outcome::Error { .. } => "error",
+                                }
+                            }
+                            Err(_) => "load-error",
+                        };
+                        evs.push(ev("run", status, 0, out.len(), "-", status));
+                        if status != "done" {
+                            detail = format!("run ended with {}", status);
+                        }
+                    }
+                }
                 Err(m) => {
                     evs.push(ev("load", "err", 0, 0, "-", load_class(&m)));
                     // the refused line, for the report
@@ -154,7 +198,7 @@ fn observe_result(res: CompileResult, stub: &str, pos: usize) -> (Vec<Value>, St
             detail = ascii(&message);
         }
     }
-    (evs, detail)
+    (evs, detail, out)
 }
 
 fn project_of_case(c: &Value) -> (Project, Option<String>) {
@@ -201,8 +245,9 @@ fn main() {
             let recs = vharness::pool::par_map(&cases, |i, c| {
                 let (p, req) = project_of_case(c);
                 let (res, _) = compile_opts(&p, &CompileOpts { no_std: false, require: req });
-                let (evs, detail) = observe_result(res, &stub, i);
-                json!({"u": "lex", "idx": c["idx"], "id": c["id"], "files": c["files"], "req": c["req"], "ev": evs, "detail": detail})
+                let run = c["expect"].as_str().map(|e| e != "-").unwrap_or(false);
+                let (evs, detail, out) = observe_run(res, &stub, i, run);
+                json!({"u": "lex", "idx": c["idx"], "id": c["id"], "files": c["files"], "req": c["req"], "ev": evs, "out": out, "detail": detail})
             });
             write_ndjson(Path::new(&args[3]), &recs);
         }
